@@ -216,11 +216,14 @@ func raceV2(c Cfg, n, capIn int) {
 	if err != nil {
 		panic(err)
 	}
-	// the caller reuses its Inputs map after the constructor has returned
-	for k := range inputs {
-		delete(inputs, k)
-	}
-	inputs[424242] = nil
+	// the caller reuses its Inputs map after the constructor has returned - from a
+	// goroutine of its own, ordered with nothing but the return of the constructor
+	defer vrt.Spawn("mapreuser", func() {
+		for k := range inputs {
+			delete(inputs, k)
+		}
+		inputs[424242] = nil
+	})
 	raceProducers(c, chans, n, true)
 	out := d.Output()
 	for h := uint(0); h < c.H; h++ {
@@ -246,11 +249,14 @@ func raceS2(c Cfg, n, capIn int) {
 	if err != nil {
 		panic(err)
 	}
-	// the caller reuses its Inputs map after the constructor has returned
-	for k := range inputs {
-		delete(inputs, k)
-	}
-	inputs[424242] = nil
+	// the caller reuses its Inputs map after the constructor has returned - from a
+	// goroutine of its own, ordered with nothing but the return of the constructor
+	defer vrt.Spawn("mapreuser", func() {
+		for k := range inputs {
+			delete(inputs, k)
+		}
+		inputs[424242] = nil
+	})
 	raceProducers(c, chans, n, true)
 	errs := d.Err()
 	vrt.Spawn("errreader", func() { vrt.Recv2(errs) })
@@ -269,11 +275,14 @@ func raceV1(c Cfg, n, capIn int) {
 	if err != nil {
 		panic(err)
 	}
-	// the caller reuses its Inputs map after the constructor has returned
-	for k := range inputs {
-		delete(inputs, k)
-	}
-	inputs[424242] = nil
+	// the caller reuses its Inputs map after the constructor has returned - from a
+	// goroutine of its own, ordered with nothing but the return of the constructor
+	defer vrt.Spawn("mapreuser", func() {
+		for k := range inputs {
+			delete(inputs, k)
+		}
+		inputs[424242] = nil
+	})
 	raceProducers(c, chans, n, true)
 	for h := uint(0); h < c.H; h++ {
 		vrt.Spawn("handler", func() {
@@ -343,11 +352,14 @@ func raceS1(c Cfg, n, capIn int) {
 	if err != nil {
 		panic(err)
 	}
-	// the caller reuses its Inputs map after the constructor has returned
-	for k := range inputs {
-		delete(inputs, k)
-	}
-	inputs[424242] = nil
+	// the caller reuses its Inputs map after the constructor has returned - from a
+	// goroutine of its own, ordered with nothing but the return of the constructor
+	defer vrt.Spawn("mapreuser", func() {
+		for k := range inputs {
+			delete(inputs, k)
+		}
+		inputs[424242] = nil
+	})
 	raceProducers(c, chans, n, true)
 	switch c.Stop {
 	case "stop":
